@@ -33,7 +33,7 @@ Theorem C11_no_assertion_any_fuel_partial :
   forall (f k : nat) (ss : list stmt) (kd : kind),
     supps k ss = true -> good_bkind kd = true ->
     ok_err (rw_stmts f ss (mkBlock kd)).
-Proof. intros f k ss kd Hs Hk. exact (proj1 (accept f) k ss (mkBlock kd) Hs (ready_mk kd Hk)). Qed.
+Proof. intros f k ss kd Hs Hk. apply okB_ok_err. exact (proj1 (accept f) k ss (mkBlock kd) Hs (ready_mk kd Hk)). Qed.
 Print Assumptions C11_no_assertion_any_fuel_partial.
 
 (* whatever the rewriter's pass2 produced (of nesting depth below the fuel of pass3), after pass3 no
